@@ -1,4 +1,5 @@
-(* C10, lines: readlines / universal newlines on the printed form of a file. *)
+(* C10, lines: readlines / universal newlines on the printed form of a file; LF or CR LF terminators, with or
+   without translation by the stream. *)
 From TT Require Import Base.Prelude Base.SrtTypes Model.SrtReader Spec.SrtCueSpec.
 Local Open Scope Z_scope.
 
@@ -17,6 +18,15 @@ Proof.
   intros H1 H2. apply andb_true_iff in H1 as [A1 A2]. apply andb_true_iff in H2 as [B1 B2].
   rewrite IH by auto. apply andb_true_iff; split; auto; lia.
 Qed.
+Lemma no_lf_app a b : no_lf a -> no_lf b -> no_lf (a ++ b).
+Proof. unfold no_lf. intros. rewrite forallb_app. apply andb_true_iff; auto. Qed.
+Lemma no_cr_app a b : no_cr a -> no_cr b -> no_cr (a ++ b).
+Proof. unfold no_cr. intros. rewrite forallb_app. apply andb_true_iff; auto. Qed.
+
+(* the two line terminators of the grammar *)
+Definition eol_ok (e : text) : Prop := e = [10] \/ e = [13; 10].
+Lemma eol_ok_eol crlf : eol_ok (eol crlf).
+Proof. destruct crlf; [right|left]; reflexivity. Qed.
 
 Lemma readlines_line l rest : no_lf l -> readlines (l ++ 10 :: rest) = (l ++ [10]) :: readlines rest.
 Proof.
@@ -25,22 +35,34 @@ Proof.
   - cbn [forallb] in H. apply andb_true_iff in H as [H1 H2].
     cbn [app readlines]. destruct (c =? 10) eqn:E; [discriminate|]. rewrite IH by auto. reflexivity.
 Qed.
+Lemma readlines_line_e e l rest : eol_ok e -> no_lf l -> readlines (l ++ e ++ rest) = (l ++ e) :: readlines rest.
+Proof.
+  intros [E|E] H; subst e.
+  - apply readlines_line; auto.
+  - change (l ++ [13; 10] ++ rest) with (l ++ [13] ++ 10 :: rest). rewrite app_assoc.
+    rewrite readlines_line by (apply no_lf_app; auto; reflexivity). rewrite <- app_assoc. reflexivity.
+Qed.
 
-Definition with_lf (ls : list text) : list text := map (fun l => l ++ [10]) ls.
+Definition with_eol (e : text) (ls : list text) : list text := map (fun l => l ++ e) ls.
+Definition with_lf (ls : list text) : list text := with_eol [10] ls.
 
-Lemma join_final e ls : join_lines e true ls = concat (map (fun l => l ++ e) ls).
+Lemma with_eol_app e a b : with_eol e (a ++ b) = with_eol e a ++ with_eol e b.
+Proof. apply map_app. Qed.
+Lemma with_eol_cons e a b : with_eol e (a :: b) = (a ++ e) :: with_eol e b.
+Proof. reflexivity. Qed.
+
+Lemma join_final e ls : join_lines e true ls = concat (with_eol e ls).
 Proof.
   induction ls as [|l ls IH]; [reflexivity|].
-  cbn [map concat]. rewrite <- IH. destruct ls as [|l' ls]; cbn [join_lines].
+  cbn [with_eol map concat]. fold (with_eol e ls). rewrite <- IH. destruct ls as [|l' ls]; cbn [join_lines].
   - rewrite app_nil_r. reflexivity.
   - rewrite app_assoc. reflexivity.
 Qed.
 
-Lemma readlines_concat ls : Forall no_lf ls ->
-  readlines (concat (map (fun l => l ++ [10]) ls)) = with_lf ls.
+Lemma readlines_concat e ls : eol_ok e -> Forall no_lf ls -> readlines (concat (with_eol e ls)) = with_eol e ls.
 Proof.
-  induction 1 as [|l ls Hl _ IH]; [reflexivity|].
-  cbn [map concat with_lf]. rewrite <- app_assoc. cbn [app]. rewrite readlines_line by auto.
+  intro E. induction 1 as [|l ls Hl _ IH]; [reflexivity|].
+  cbn [with_eol map concat]. fold (with_eol e ls). rewrite <- app_assoc. rewrite readlines_line_e by auto.
   rewrite IH. reflexivity.
 Qed.
 
@@ -51,26 +73,55 @@ Proof.
   - cbn [forallb] in H. apply andb_true_iff in H as [H1 H2].
     cbn [app universal]. destruct (c =? 13) eqn:E; [discriminate|]. rewrite IH by auto. reflexivity.
 Qed.
-
-Lemma universal_concat ls : Forall no_cr ls ->
-  universal (concat (map (fun l => l ++ [13;10]) ls)) = concat (map (fun l => l ++ [10]) ls).
+Lemma universal_lf_line l rest : no_cr l -> universal (l ++ 10 :: rest) = l ++ 10 :: universal rest.
 Proof.
-  induction 1 as [|l ls Hl _ IH]; [reflexivity|].
-  cbn [map concat]. rewrite <- !app_assoc. cbn [app]. rewrite universal_line by auto. rewrite IH. reflexivity.
+  unfold no_cr. induction l as [|c l IH]; intro H.
+  - reflexivity.
+  - cbn [forallb] in H. apply andb_true_iff in H as [H1 H2].
+    cbn [app universal]. destruct (c =? 13) eqn:E; [discriminate|]. rewrite IH by auto. reflexivity.
+Qed.
+
+Lemma universal_concat e ls : eol_ok e -> Forall no_cr ls ->
+  universal (concat (with_eol e ls)) = concat (with_eol [10] ls).
+Proof.
+  intro E. induction 1 as [|l ls Hl _ IH]; [reflexivity|].
+  cbn [with_eol map concat]. fold (with_eol e ls). fold (with_eol [10] ls). rewrite <- !app_assoc.
+  destruct E as [E|E]; subst e; cbn [app].
+  - rewrite universal_lf_line by auto. rewrite IH. reflexivity.
+  - rewrite universal_line by auto. rewrite IH. reflexivity.
 Qed.
 
 (* what readlines returns for a printed file that ends with a terminator: every line of the abstract
-   file followed by LF; with CR LF terminators the same after the text-mode translation *)
-Lemma readlines_print_lf (f : file_src) : f_crlf f = false -> f_final_eol f = true ->
-  Forall no_lf (file_lines f) ->
-  readlines (print_file f) = with_lf (file_lines f).
+   file followed by its terminator; after the text-mode translation every line followed by LF *)
+Lemma readlines_print (f : file_src) : f_final_eol f = true -> Forall no_lf (file_lines f) ->
+  readlines (print_file f) = with_eol (eol (f_crlf f)) (file_lines f).
 Proof.
-  intros Hc Hf Hl. unfold print_file. rewrite Hc, Hf. cbn [eol]. rewrite join_final. apply readlines_concat; auto.
+  intros Hf Hl. unfold print_file. rewrite Hf. rewrite join_final. apply readlines_concat; auto using eol_ok_eol.
 Qed.
-Lemma readlines_print_crlf (f : file_src) : f_crlf f = true -> f_final_eol f = true ->
+Lemma readlines_print_universal (f : file_src) : f_final_eol f = true ->
   Forall no_lf (file_lines f) -> Forall no_cr (file_lines f) ->
-  readlines (universal (print_file f)) = with_lf (file_lines f).
+  readlines (universal (print_file f)) = with_eol [10] (file_lines f).
 Proof.
-  intros Hc Hf Hl Hr. unfold print_file. rewrite Hc, Hf. cbn [eol]. rewrite join_final.
-  rewrite universal_concat by auto. apply readlines_concat; auto.
+  intros Hf Hl Hr. unfold print_file. rewrite Hf. rewrite join_final.
+  rewrite universal_concat by auto using eol_ok_eol. apply readlines_concat; auto. left; reflexivity.
+Qed.
+
+(* ---- line.rstrip("\r\n") *)
+Lemma lstrip_clean s : no_lf s -> no_cr s -> lstrip_crlf s = s.
+Proof.
+  unfold no_lf, no_cr. destruct s as [|c s]; [reflexivity|]. cbn [forallb lstrip_crlf]. intros H1 H2.
+  apply andb_true_iff in H1 as [A _]. apply andb_true_iff in H2 as [B _].
+  unfold is_crlf. replace (c =? 13) with false by lia. replace (c =? 10) with false by lia. reflexivity.
+Qed.
+Lemma no_lf_rev s : no_lf s -> no_lf (rev s).
+Proof. unfold no_lf. intro H. rewrite forallb_forall in *. intros x I. apply H. apply in_rev. exact I. Qed.
+Lemma no_cr_rev s : no_cr s -> no_cr (rev s).
+Proof. unfold no_cr. intro H. rewrite forallb_forall in *. intros x I. apply H. apply in_rev. exact I. Qed.
+
+(* a line of the file as read (with LF, with CR LF, or without terminator) loses exactly its terminator *)
+Lemma rstrip_line l e : no_lf l -> no_cr l -> e = [] \/ eol_ok e -> rstrip_crlf (l ++ e) = l.
+Proof.
+  intros H1 H2 E. unfold rstrip_crlf. rewrite rev_app_distr.
+  assert (R : lstrip_crlf (rev l) = rev l) by (apply lstrip_clean; auto using no_lf_rev, no_cr_rev).
+  destruct E as [E|[E|E]]; subst e; cbn [rev app lstrip_crlf is_crlf Z.eqb orb]; rewrite R; apply rev_involutive.
 Qed.
